@@ -170,6 +170,10 @@ func C07(c *Ctx) {
 	r.Rule("R07.6", "the undo restores what was recorded (shared with C13 R13.6): no function of internal/ledger removes an entry from an account's dirty set, and storageChange.revert stores the recorded previous value, nil included, on every path - otherwise a reverted transaction leaves the layers below showing through instead of the value the block had before it.")
 	r.Rule("R07.10", freshUndoText)
 	c.freshUndo("R07.10")
+	c.c07AccountRelease()
+	c.c07FeeOnRestoredBalance()
+	c.c07FailedReceiptClean()
+	c.c07NodeEvents()
 	r.Rule("R07.9", journalResetText)
 	c.journalReset("R07.9")
 	c.c13Undo("R07.6")
@@ -221,8 +225,13 @@ func C07(c *Ctx) {
 			if pre.Has(call) {
 				continue
 			}
-			ok, ret := c.failPathReverts(at, call)
 			key := "applyTransaction: fee failure reverts"
+			// the retry on the restored balance: every path to this payment has already reverted the transaction
+			if !core.Reach([]core.Point{core.EntryOf(at)}, isRevert, nil).Has(call) {
+				r.OK("R07.1", key+" (payment tried after the revert)", c.P.Pos(call.Pos()), "every path to this payGasFee passes a revert: nothing of the transaction is left to undo when it fails")
+				continue
+			}
+			ok, ret := c.failPathReverts(at, call)
 			if ok && errNilEdges(at, call).Len() > 0 {
 				r.OK("R07.1", key, c.P.Pos(call.Pos()), "every path with payGasFee error passes a revert before returning")
 			} else {
